@@ -197,6 +197,29 @@ def pair_queues(ctx, rep):
                 touches = any(_queue_delta(e) and gauged.get((it.type_of(_queue_delta(e)[1][1], p), _queue_delta(e)[1][2])) for p in ps for e in p.calls() if e.fn is fi)
                 if touches:
                     rep.ob("R-PAIR-Q", "%s%s: balanced" % (fi.qualname, "[%s]" % ck.split(":")[-1] if ck else ""), True, "", where_of(fi))
+    # "never negative on the way": the gauge moves in the same critical section as the queue.  An increment made after
+    # the entry is already visible (lock released) can be overtaken by the decrement of whoever takes the entry out.
+    for fi, ci, ps, it in runs:
+        for p in ps:
+            for e in p.calls():
+                qd = _queue_delta(e)
+                if not qd or e.fn is not fi:
+                    continue
+                owner = it.type_of(qd[1][1], p)
+                g = gauged.get((owner, qd[1][2]))
+                if not g:
+                    continue
+                want = "inc" if qd[0] > 0 else "dec"
+                gs = [x for x in p.calls() if q.metric_of(x) and q.metric_of(x)[0] == g and q.metric_of(x)[1] == want]
+                if not gs:
+                    continue
+                near = min(gs, key=lambda x: abs(x.seq - e.seq))
+                lks = [l[1] for l in e.locks if isinstance(l[1], tuple) and l[1][0] == "attr" and l[1][1] == qd[1][1]]
+                if not lks:
+                    continue
+                a, b = (e, near) if e.seq < near.seq else (near, e)
+                same = any(roles.held_throughout(p, lk, a, b) and any(l[1] == lk for l in near.locks) for lk in lks)
+                rep.ob("R-PAIR-Q", "%s: %s moves in the critical section that changes the queue" % (fi.qualname, g), same, "the queue is changed under %s but %s.%s() happens outside that hold of the lock: between the two the entry is visible to the other side, whose own gauge update can come first (the gauge then reads -1, or one too many, for a moment)" % (fmt(lks[0]), g, want), where_of(fi, near.node), trace_of(p, near.seq))
     # a gauged container must not be re-bound outside __init__
     for fi, ci, ps, it in runs:
         for p in ps:
@@ -372,7 +395,14 @@ def counters(ctx, rep):
         kinds.add(is_first)
         want = 0 if is_first else 1
         rep.ob("R-COUNTER", "retry worker: RETRY_TOTAL iff re-submission [%s]" % ("first" if is_first else "retry"), len(rt) == want, "attempt %s 0 but RETRY_TOTAL inc x%d" % ("==" if is_first else "!=", len(rt)), where_of(subs[0].fn, subs[0].node), trace_of(p, subs[0].seq))
-    rep.require(kinds == {True, False}, "retry worker: expected hand-over paths for first attempt and retry (found %s)" % sorted(kinds))
+    if not kinds:
+        # no hand-over path looks at the attempt number at all: then the counter is not kept where re-submissions
+        # happen.  Wherever else it is incremented (for instance where a retry is *scheduled*), it also counts the
+        # retries that never take place -- cancelled or shut down while waiting.
+        elsewhere = sorted(set(e.fn.qualname for fi in prog.functions.values() if fi.parent is None for ci in ctx.instances(fi) for p in ctx.paths(fi, ci, depth=0)[0] for e in p.calls() if e.fn is fi and q.metric_of(e) and q.metric_of(e)[0] == "RETRY_TOTAL"))
+        rep.ob("R-COUNTER", "retry worker: RETRY_TOTAL is counted at the re-submission", False, "no hand-over path of the retry worker tests the attempt number and counts RETRY_TOTAL (incremented in: %s): a retry that is scheduled but cancelled or shut down before it is re-submitted would be counted although it never happened" % (elsewhere or "nowhere"), where_of(layer.loop))
+    else:
+        rep.require(kinds == {True, False}, "retry worker: expected hand-over paths for first attempt and retry (found %s)" % sorted(kinds))
     # TIMEOUT: on the timeout worker's paths, per cancel() of an overdue job's future
     tox = prog.cls("TimeoutExecutor")
     tl = roles.Layer(ctx, tox)
